@@ -100,8 +100,8 @@ fn expect(c: &Case, lab_ports: Option<(u16, u16)>) -> Expect {
         2 => format!("{USER}:{PASS}@"),
         _ => format!(":{PASS}@"),
     };
-    let path = if c.path { "/p/q" } else { "" };
-    let query = if c.query { "?q=1&r=2" } else { "" };
+    let path = if c.path { "/p/q@x" } else { "" };
+    let query = if c.query { "?q=1&r=2@y" } else { "" };
     let fragment = if c.fragment { "#fr4g" } else { "" };
     let url = format!("{scheme}://{userinfo}{host}{port_text}{path}{query}{fragment}");
     let proxy_url = match c.proxy {
@@ -347,7 +347,7 @@ pub fn c08(ctx: &Ctx) -> Report {
     rep.set("exhaustive", true);
     rep.set(
         "rule",
-        "full matrix scheme {http, https} x host {domain, subdomain in mixed case, IPv4, IPv6} x port {default, explicit default, other, the other scheme's default} x path {empty, /p/q} x query x fragment x userinfo {none, user, user:password, :password} x proxy {none, http, https} x proxy URL {with/without credentials, with/without port}; plain-http routes run against the scripted transport (address asked for + bytes written), every route involving TLS against the local TLS lab (which listener accepted, (domain, port) looked up, request read in clear by the peer, CONNECT line read by the proxy); every cell is distinct",
+        "full matrix scheme {http, https} x host {domain, subdomain in mixed case, IPv4, IPv6} x port {default, explicit default, other, the other scheme's default} x path {empty, /p/q@x} x query {none, ?q=1&r=2@y (a literal '@' behind the authority)} x fragment x userinfo {none, user, user:password, :password} x proxy {none, http, https} x proxy URL {with/without credentials, with/without port}; plain-http routes run against the scripted transport (address asked for + bytes written), every route involving TLS against the local TLS lab (which listener accepted, (domain, port) looked up, request read in clear by the peer, CONNECT line read by the proxy); every cell is distinct",
     );
     rep.assume("the Host value of plain-http requests sent through a proxy is not constrained by the property and is not checked");
     rep.assume("in the TLS lab IP-literal origins are 127.0.0.1 / [::1] with the listener's port (there is no resolver for literals), so the three port variants collapse for those cells; they are distinct for domains and for all scripted cells");
